@@ -651,7 +651,7 @@ def population(ctx):
     for g in GRAMMARS:
         ngen, nnear, nenum = plan[g]
         if not q:
-            ngen, nnear, nenum = ngen * 8, nnear * 8, None if g != "eq" else 30000
+            ngen, nnear, nenum = ngen * 5, nnear * 5, None if g != "eq" else 12000
         gens = [gen_case(g, rng) for _ in range(ngen)]
         cases.extend(gens)
         for _ in range(nnear):
@@ -678,10 +678,11 @@ def population(ctx):
 # ----------------------------------------------------------------------------------------------
 
 def model_expr(c):
+    """The comparison code == model is made inside the kernel evaluation (answer "=" or "!")."""
     g = c["g"]
     if c["kind"] == "gen":
-        return "(chk_%s %s %s %s)" % (g, cp("".join(c["toks"])), cp(c["ws"]), cp(c["s"]))
-    return "(run_%s %s)" % (g, cp(c["s"]))
+        return "(chk_%s %s %s %s %s)" % (g, cp("".join(c["toks"])), cp(c["ws"]), cp(c["s"]), cp(c["code"]))
+    return "(cmp_%s %s %s)" % (g, cp(c["s"]), cp(c["code"]))
 
 
 def eval_exprs(tag, exprs, est):
@@ -696,7 +697,26 @@ def eval_exprs(tag, exprs, est):
 
 
 def model_eval(tag, cases):
-    return eval_exprs(tag, [model_expr(c) for c in cases], [len(c["s"].encode("utf-8")) + 16 for c in cases])
+    """-> per case (flags, model answer); the model's answer is fetched in a second evaluation only for the
+    cases on which the kernel found a disagreement (at most 400 of them; beyond that it is reported as '?')."""
+    res = eval_exprs(tag, [model_expr(c) for c in cases], [8] * len(cases))
+    out = [None] * len(cases)
+    diff = []
+    for i, (c, r) in enumerate(zip(cases, res)):
+        flags, verdict = r[:-1], r[-1:]
+        if verdict == "=":
+            out[i] = (flags, c["code"])
+        else:
+            assert verdict == "!", r
+            out[i] = (flags, "?")
+            diff.append(i)
+    by_g = {}
+    for i in diff[:400]:
+        by_g.setdefault(cases[i]["g"], []).append(i)
+    for g, idx in by_g.items():
+        for i, m in zip(idx, model_run_strings(tag + "d", g, [cases[i]["s"] for i in idx])):
+            out[i] = (out[i][0], m)
+    return out
 
 
 def model_run_strings(tag, g, strs):
@@ -922,14 +942,13 @@ def run(ctx):
         st = stats[g]
         st["strings"] += 1
         st[{"gen": "generated", "near": "near_miss", "enum": "enumerated", "fixed": "fixed"}[c["kind"]]] += 1
+        flags, model = r
         if c["kind"] == "gen":
-            flags, _, model = r.partition("|")
             if flags != "PWB":
                 raise AssertionError("generator and Model/Grammar.v disagree on the printed string (flags %s) for %r (tokens %r)" % (flags, c["s"], c["toks"]))
-            if model != c["view"]:
+            if model not in (c["view"], "?"):
                 raise AssertionError("model parse of a generated string differs from the generating tree: %r -> %s, expected %s" % (c["s"], model, c["view"]))
         else:
-            model = r
             st["edits"][c["how"]] = st["edits"].get(c["how"], 0) + 1
         c["model"] = model
         if c["code"] == "REJECT":
